@@ -80,13 +80,13 @@ Section ConsPres.
 
   (* the sections that do not belong to a consumer *)
   Lemma Q_step_container s e :
-    match e with ERelSect _ | EStartCons _ | EConsStep _ | EConsCancel _ | EFire _ => False | _ => True end ->
+    match e with ERelSect _ | EStartCons _ | EConsStep _ | EConsCancel _ | EFire _ | ECbReturn _ _ => False | _ => True end ->
     Q (conss s) -> Q (conss (step repaired s e)).
   Proof.
     intros He H. destruct e; try contradiction; cbn [step].
     - unfold set_context. destruct (Nat.eqb (kctx s) c); [exact H|]. cbn [fst]. now apply Q_start_resolve.
     - now apply Q_add_ref.
-    - unfold release_call. now rewrite conss_release_call_by.
+    - destruct (rkind (nth r (refs s) ref0)); try exact H; unfold release_call; now rewrite conss_release_call_by.
     - destruct (nth_error (gs s) g); [now apply Q_released_section | exact H].
     - unfold async_section. destruct (nth_error (asyncs s) a) as [x|]; [|exact H]. destruct (as_pc x); [|exact H].
       now apply Q_released_section.
@@ -172,6 +172,21 @@ Proof.
   destruct parked; [exact H1|]. apply InvC_setc; [exact H1 | exact Hx].
 Qed.
 
+Lemma acc_ret_conss s c x e : InvC (conss s) -> cons_ok x -> InvC (conss (acc_ret s c x e)).
+Proof.
+  intros H Hx. unfold acc_ret.
+  pose proof (conss_release_call_by (setc s c (with_cpc x (CRel e))) (cref x) (Some c)) as G.
+  destruct (release_call_by (setc s c (with_cpc x (CRel e))) (cref x) (Some c)) as [s1 parked]. cbn [fst] in G.
+  assert (H1 : InvC (conss s1)) by (rewrite G; apply InvC_setc; [exact H | exact Hx]).
+  destruct parked; [exact H1|]. apply InvC_setc; [exact H1 | exact Hx].
+Qed.
+
+Lemma acc_s1_conss s c x : InvC (conss s) -> cons_ok x -> InvC (conss (acc_s1 s c x)).
+Proof.
+  intros H Hx. unfold acc_s1. destruct (negb (Nat.eqb (ac_err x) 0)); [now apply acc_ret_conss|].
+  destruct (ac_res x); [now apply InvC_setc|]. destruct (ccanc x); [now apply acc_ret_conss | now apply InvC_setc].
+Qed.
+
 Lemma step_InvC s e : InvC (conss s) -> InvC (conss (step repaired s e)).
 Proof.
   intros H. destruct e; try (apply (Q_step_container InvC invoke_InvC); [exact I | exact H]); cbn [step].
@@ -182,13 +197,18 @@ Proof.
   - unfold start_consumer. apply (Q_add_ref InvC invoke_InvC). cbn [conss set_conss].
     intros c x Hx. destruct (nth_error_snoc_cases _ _ _ _ Hx) as [[_ H0]|[_ ->]]; [exact (H c x H0)|]. destruct k; cbn; auto.
   - unfold cons_step. destruct (nth_error (conss s) c) as [x|] eqn:Ex; [|exact H]. pose proof (H c x Ex) as Hx.
-    destruct (ck x), (cpcv x); try exact H.
+    destruct (ck x), (cpcv x); try exact H; try (now apply acc_s1_conss).
     + destruct (cw_res x) as [[v e]|]; [destruct (Nat.eqb e 0); [now apply InvC_setc | now apply cons_fail_conss] | destruct (ccanc x); [now apply cons_fail_conss | exact H]].
     + destruct (ww_prom x) as [[v e]|]; [destruct (Nat.eqb e 0); [now apply InvC_setc | now apply cons_fail_conss] | destruct (ccanc x); [now apply cons_fail_conss | exact H]].
+    + destruct (negb (Nat.eqb (ac_nonce x) (ac_snap x))); [now apply acc_s1_conss|]. destruct (ccanc x); [now apply acc_ret_conss | exact H].
   - destruct (nth_error (conss s) c) as [x|] eqn:Ex; [|exact H]. apply InvC_setc; [exact H|]. exact (H c x Ex).
   - unfold fire_section. destruct (nth_error (conss s) c) as [x|] eqn:Ex; [|exact H]. pose proof (H c x Ex) as Hx.
     destruct (ww_firepc x) as [[|]|] eqn:Ef; try exact H. apply remove_ref_InvC. apply InvC_setc; [exact H|].
     unfold cons_ok in *. rewrite Ef in Hx. cbn [ww_firepc ww_once ww_fired with_fire]. destruct Hx as [A1 A2]. rewrite A2. auto.
+  - unfold cb_return. destruct (nth_error (conss s) c) as [x|] eqn:Ex; [|exact H]. pose proof (H c x Ex) as Hx.
+    destruct (ck x); try exact H. destruct (cpcv x); try exact H.
+    destruct (ccanc x); [now apply acc_ret_conss|].
+    match goal with |- InvC (conss (if ?b then _ else _)) => destruct b end; [now apply acc_ret_conss | now apply InvC_setc].
 Qed.
 
 Theorem run_InvC k es : InvC (conss (run repaired (init k) es)).
@@ -323,7 +343,7 @@ Qed.
 
 (* and afterwards nothing the container does changes that count *)
 Theorem fired_stays k0 c s e :
-  match e with ERelSect _ | EStartCons _ | EConsStep _ | EConsCancel _ | EFire _ => False | _ => True end ->
+  match e with ERelSect _ | EStartCons _ | EConsStep _ | EConsCancel _ | EFire _ | ECbReturn _ _ => False | _ => True end ->
   fired_done c k0 (conss s) -> fired_done c k0 (conss (step repaired s e)).
 Proof. apply (Q_step_container (fired_done c k0) (invoke_fired_done c k0)). Qed.
 
